@@ -111,6 +111,19 @@ CLAIMED = {
        "observable. Three defects found here were repaired by fix: commits.",
   technique="Coq proof over a regenerated command table + complete grid enumeration under AddressSanitizer",
   design_ref="DESIGN.md section 5 C17"),
+ "C18": dict(
+  text="Theorems (Coq) over Peak.v, the model of float32_peak_update / double64_peak_update and the running per-channel peak: for every split of a "
+       "channel's frames into chunks (write calls / staging chunks starting on frame boundaries) the stored peak equals that of the concatenated "
+       "signal (induction over the chunk list); it is >= every sample; its position is the frame of the FIRST occurrence of the maximum (ties keep "
+       "the earlier frame). The frame-boundary hypothesis is refuted for the staged write paths with channel counts that do not divide the staging "
+       "length (witness theorem; known finding). Tie: every PEAK stored by the implementation in WAV/WAVEX/RF64/AIFF/CAF float and double files "
+       "(channels 1,2,3,5; maxima at first/last frame, ties, call boundaries, silence; all partitions; both write types) is recomputed by the "
+       "extracted model; SFC_GET_SIGNAL_MAX / SFC_GET_MAX_ALL_CHANNELS after re-open; SFC_CALC_* against an independent scan at several read "
+       "positions with the state digest (position, norm_double) compared before/after.",
+  note="Trusted: Coq kernel, hand-written Peak.v (tied by recomputing every stored PEAK of the run), extraction, sfdrive. PEAK (de)serialisers are exercised "
+       "through the re-open only. Known finding: staged chunks not frame aligned; fixed: CALC commands in RDWR mode.",
+  technique="Coq proof (induction over write partitions) + model recomputation of every stored PEAK + independent-scan oracle for SFC_CALC_*",
+  design_ref="DESIGN.md section 5 C18"),
 }
 
 
